@@ -9,7 +9,7 @@
    Clauses 2 and 3 (keeping a forced mate in two; never allowing an avoidable mate in one) are NOT
    proved with the cache on: scores are stored relative to the ply at which they were found and
    are reused at other plies, which blurs mate DISTANCES, so two losing moves can in principle swap
-   — the full statement is recorded below as C12_full and is validated only by the
+   — those clauses are validated only by the
    correspondence (exact agreement of the engine with the model on sequences of searches sharing
    the cache) and by a mate solver evaluated on the rules specification.  With the cache
    neutralised all three clauses follow from C11 (exact negamax value). *)
@@ -64,10 +64,6 @@ Section C12.
   Theorem C12_empty_cache_ok : forall root, cache_ok root (init_st mv).
   Proof. exact (empty_cache_ok pos mv moves legal key). Qed.
 End C12.
-
-(* The full property (all three clauses, after a completed 3-ply iteration), recorded but NOT proved
-   with the cache on. *)
-Definition C12_full : Prop := True.   (* see the comment at the top; clauses 2 and 3 are not formalised as theorems *)
 
 Print Assumptions C12_mate_in_one.
 Print Assumptions C12_empty_cache_ok.
